@@ -94,6 +94,7 @@ structure Case where
   best : Nat
   msg : PrepareMsg
   visit : List String
+  marketOrder : List Nat
   oracle : Oracle
 
 def decCase (j : Json) : Except String Case := do
@@ -101,12 +102,14 @@ def decCase (j : Json) : Except String Case := do
   pure { orders := ← (← gL e "orders").mapM decOurs, accounts := ← (← gL e "accounts").mapM decAcct,
          ourNode := ← gS e "ourNode", version := ← gN e "version", minNoDust := ← gI e "minNoDust",
          best := ← gN j "best", msg := ← decMsg (← j.getObjVal? "msg"), visit := ← gLS j "visit",
+         marketOrder := (j.getObjValAs? (List Nat) "marketOrder").toOption.getD [],
          oracle := ← decOracle (← j.getObjVal? "oracle") }
 
 def Case.env (c : Case) (premiumDefault : Int) : Env :=
   { orders := c.orders, accounts := c.accounts, ourNode := c.ourNode, version := c.version,
     minNoDust := c.minNoDust,
-    premium := fun a r d => (c.oracle.premium.lookup (a, r, d)).getD premiumDefault,
+    -- the exact float model inside its domain; the oracle table only outside (negative amounts, results ≥ 2^63)
+    premium := floatPremium (fun a r d => (c.oracle.premium.lookup (a, r, d)).getD premiumDefault),
     acctScript := fun k sv e => (c.oracle.acctScripts.lookup (k, sv, e)).getD none,
     fundScript := fun t a b => (c.oracle.fundScripts.lookup (t, a, b)).getD none }
 
@@ -117,7 +120,7 @@ def fmtPending : Option String → String
 /-- parse + validate one proposal -/
 def runCase (c : Case) (pending : Option String) (premiumDefault : Int) : Option String × String :=
   let env := c.env premiumDefault
-  match parseRPCBatch c.msg with
+  match parseRPCBatch { c.msg with markets := reorderMarkets c.marketOrder c.msg.markets } with
   | .error e => (pending, s!"rej {e.name} pending={fmtPending pending}")
   | .ok b =>
     let b := { b with matched := reorder c.visit b.matched }
@@ -126,9 +129,9 @@ def runCase (c : Case) (pending : Option String) (premiumDefault : Int) : Option
     | (.ok _, p) => (p, s!"ok pending={fmtPending p}")
 
 def constsLine : String :=
-  s!"pad={Pool.Gen.heightHintPadding} unit={Pool.Gen.baseSupplyUnit} p2wsh={Pool.Gen.p2wshOutputSize} " ++
-  s!"input={Pool.Gen.inputSize} scale={Pool.Gen.witnessScaleFactor} tapwit={Pool.Gen.taprootMultiSigWitnessSize} " ++
-  s!"wit={Pool.Gen.multiSigWitnessSize} latest={Pool.Gen.latestBatchVersion}"
+  s!"pad={Pool.Gen.heightHintPadding} unit={Pool.Gen.Batch.baseSupplyUnit} p2wsh={Pool.Gen.Batch.p2wshOutputSize} " ++
+  s!"input={Pool.Gen.Batch.inputSize} scale={Pool.Gen.Batch.witnessScaleFactor} tapwit={Pool.Gen.Batch.taprootMultiSigWitnessSize} " ++
+  s!"wit={Pool.Gen.Batch.multiSigWitnessSize} latest={Pool.Gen.Batch.latestBatchVersion}"
 
 abbrev DrvSt := Option String
 def drvInit : DrvSt := none
